@@ -873,6 +873,11 @@ impl Vm {
             self.compile_quasiquote(lambda, rest, depth)?;
             lambda.emit(OpCode::PushAcc);
         } else {
+            // Like any quoted part of code handed to eval, the tail may be a
+            // value that is not a datum
+            if let Some(cell) = Self::find_non_datum(rest) {
+                return Err(InvalidSyntax(format!("{:#} is not a datum", cell)));
+            }
             lambda.emit(OpCode::PushImmediate);
             lambda.emit(self.heap.maybe_put_cell(rest));
         }
